@@ -61,6 +61,9 @@ def join_case(draw, tier):
         c["rprefix"] = draw(st.sampled_from(["r_", None]))
     # the inputs are sorted via temporary-file chunks as well: "first partner" and the row multiset must not depend on it
     c["buffersize"] = draw(st.sampled_from([None, None, 1, 2, 3]))
+    # inputs that are themselves sort views on the join key (ascending or descending): the operator must not take them
+    # for sorted input unless they are
+    c["upstream"] = [draw(st.sampled_from(["none", "none", "none", "asc", "desc"])) for _ in range(2)]
     return c
 
 
@@ -74,6 +77,14 @@ def check_join(case, ctx):
     if case.get("buffersize") is not None:
         kw["buffersize"] = case["buffersize"]
         kw["tempdir"] = ctx.tmpdir()
+    ups = case.get("upstream") or ["none", "none"]
+    lki, rki = RJ._keys(L, Rt, refkw.get("key"), refkw.get("lkey"), refkw.get("rkey"))
+    if not lki:
+        ups = ["none", "none"]
+    if ups[0] != "none":
+        L = [list(r) for r in R.ref_sort(L, tuple(lki), ups[0] == "desc")]
+    if ups[1] != "none":
+        Rt = [list(r) for r in R.ref_sort(Rt, tuple(rki), ups[1] == "desc")]
     hdr, exp, lk = RJ.ref_join(L, Rt, kind, squareup=(kind != "anti"), **refkw)
     # non-triviality
     sqm = refkw.get("missing")
@@ -86,7 +97,13 @@ def check_join(case, ctx):
     ctx.nontrivial((lkeys and rkeys and matched and unmatched) or none_vs_empty)
     ctx.label("fn:" + fn, "keyform:" + case["keyform"], "left-empty" if not lkeys else "left-rows",
               "right-empty" if not rkeys else "right-rows", "none-vs-empty" if none_vs_empty else "regular")
-    Ls, Rs = codec.snapshot(L), codec.snapshot(Rt)
+    Ls, Rs = codec.snapshot(case["left"]), codec.snapshot(case["right"])
+    if ups[0] != "none":
+        Ls = etl.sort(Ls, tuple(lki), reverse=ups[0] == "desc")
+    if ups[1] != "none":
+        Rs = etl.sort(Rs, tuple(rki), reverse=ups[1] == "desc")
+    if ups != ["none", "none"]:
+        ctx.label("upstream-sortview")
     try:
         got = [tuple(r) for r in getattr(etl, fn)(Ls, Rs, **kw)]
     except Exception as ex:
